@@ -371,6 +371,17 @@ def replay(grog, history, opts, scratch_root, literal_clean=True):
                         elif os.path.lexists(newp):
                             os.remove(newp)
                 W.write_sources(st)
+            elif kind == "relocate":
+                # same sources at another absolute path; the local cache directory (named after the workspace path) is carried over
+                old_ws, old_cache = W.ws, W.cache_dir()
+                n_moves = getattr(W, "moves", 0) + 1
+                W.moves = n_moves
+                new_ws = os.path.join(base, "elsewhere" * (n_moves % 2) + f"ws{n_moves}")
+                os.rename(old_ws, new_ws)
+                W.ws, W.pkg = new_ws, os.path.join(new_ws, "pkg")
+                if old_cache:
+                    newdir = os.path.join(W.root, hashlib.sha256(new_ws.encode()).hexdigest()[:16] + "-" + os.path.basename(new_ws))
+                    os.rename(os.path.dirname(old_cache), newdir)
             elif kind == "taint":
                 p = W.grog_cmd(["taint", f"//pkg:{act['t']}"])
                 if p is None or p.returncode != 0:
